@@ -168,6 +168,19 @@ func (c04) Gen(r *rand.Rand, tier string, run int) *core.Case {
 			}
 		}
 	}
+	if c.Batch == "fault-free" && r.IntN(7) == 0 {
+		// a client that keeps its services in a bus.Cache (the session that
+		// needs no directory): every goroutine asks the cache for a proxy of
+		// its own and they call the same methods of the same objects at once
+		c.Batch = "cached-session"
+		c.Params["cached"] = 1
+		lk := []string{"echo", "echo", "echo", "noarg", "slow", "fire"}
+		for k := 0; k < 2+r.IntN(3); k++ {
+			for i := 0; i < 2+r.IntN(4); i++ {
+				c.Ops = append(c.Ops, core.Op{Kind: lk[r.IntN(len(lk))], Actor: 90 + k, X: 0, Y: int64(r.IntN(nObj)), S: strconv.FormatUint(r.Uint64()>>20, 16)})
+			}
+		}
+	}
 	if r.IntN(3) == 0 {
 		// the generic object features are calls like any other: statistics
 		// and tracing change how an object answers
@@ -330,6 +343,20 @@ func (c04) Run(c *core.Case, env *core.Env) {
 			return
 		}
 	}
+	var cache *bus.Cache
+	if c.P("cached", 0) == 1 {
+		zzsim.SetNode("cacheclient")
+		_, ch, err := bus.SelectEndPoint([]string{ServerAddr}, "u", "p")
+		if err == nil {
+			cache = bus.NewCache(ch.EndPoint())
+			err = cache.Lookup("Probe", w.ServiceID)
+		}
+		zzsim.SetNode("harness")
+		if err != nil {
+			env.Violate("setup/cache", "%v", err)
+			return
+		}
+	}
 	byActor := map[int][]core.Op{}
 	var actors []int
 	for _, op := range c.Ops {
@@ -386,6 +413,28 @@ func (c04) Run(c *core.Case, env *core.Env) {
 					op.Y = int64(o)
 					c04op(env, a, i, op, locals[o])
 					env.Probe("operations-through-the-server's-own-session")
+					continue
+				}
+				if a >= 90 && a < 100 {
+					if cache == nil {
+						continue
+					}
+					zzsim.SetNode("cacheclient")
+					o := int(op.Y) % len(w.ObjIDs)
+					if locals == nil {
+						locals = map[int]probe.ProbeProxy{}
+					}
+					if locals[o] == nil {
+						px, err := cache.Proxy("Probe", w.ObjIDs[o])
+						if err != nil {
+							env.Violate("setup/cache-proxy", "%v", err)
+							return
+						}
+						locals[o] = probe.MakeProbe(cache, px)
+					}
+					op.Y = int64(o)
+					c04op(env, a, i, op, locals[o])
+					env.Probe("operations-through-a-cached-session")
 					continue
 				}
 				if a >= 70 && a < 80 {
